@@ -8,6 +8,7 @@ import summaries
 from mirexec import Agg, Enum, Ref, Unsupported, mk_enum
 from core import Result
 from mq import Query, run_queries, record, native_eval, jf, unjf
+import polyq
 
 F = E.fvar
 
@@ -1880,6 +1881,11 @@ def simplify_guards(terms_, a, q, t, c_):
         seen.add(z.id)
         if z.op == "fdiv" and z.args[0] is a and T.is_t(z.args[1]) and z.args[1].op == "fmul" and z.args[1].args[0] is a and z.args[1].args[1] is q:
             mapping[z.id] = T.fbin("fdiv", 1.0, q)
+        if z.op == "fmax" and len(z.args) == 2:
+            # max(a, a*q) = a on the domain (a > 0, q <= 1)
+            for u_, w_ in ((z.args[0], z.args[1]), (z.args[1], z.args[0])):
+                if u_ is a and T.is_t(w_) and w_.op == "fmul" and w_.args[0] is a and w_.args[1] is q:
+                    mapping[z.id] = a
         if z.op == "flt" and T.is_t(z.args[0]) and z.args[0].op == "fabs" and not T.is_t(z.args[1]):
             inner = z.args[0].args[0]
             if T.is_t(inner) and inner.op == "fsub" and inner.args[0] is t and not T.is_t(inner.args[1]) and abs(inner.args[1] - math.pi / 2) < 1e-12:
@@ -1889,6 +1895,27 @@ def simplify_guards(terms_, a, q, t, c_):
         return list(terms_)
     memo = {}
     return [T.subst(z, mapping, memo) for z in terms_]
+
+
+def purify(terms_):
+    """replace every arithmetic term that is compared in an atom by a fresh real (forgets how the compared
+    quantities are computed; sound for unsat).  Used where only the Boolean/ordering structure matters."""
+    mapping = {}
+    seen = set()
+    stack = [z for z in terms_ if T.is_t(z)]
+    while stack:
+        z = stack.pop()
+        if z.id in seen:
+            continue
+        seen.add(z.id)
+        if z.op in ("flt", "fle", "feq"):
+            for w in z.args:
+                if T.is_t(w) and w.op != "var":
+                    mapping[w.id] = T.var("pur%d" % w.id, "F")
+            continue
+        stack.extend(w for w in z.args if T.is_t(w))
+    memo = {}
+    return [T.subst(z, mapping, memo) if T.is_t(z) else z for z in terms_]
 
 
 def match_wrap(t):
@@ -2023,6 +2050,23 @@ def c01(res, tier, seed):
                T.fcmp("feq", T.fbin("fadd", T.fbin("fmul", cth, cth), T.fbin("fmul", sth, sth)), 1.0)]
     all_q = []
     ctxs = []
+    convs = []
+    Kmax = 3 if tier == "quick" else 5
+
+    def P(qq, conv):
+        """attach the change-of-variables form (vlib/polyq.py) when every atom converts; otherwise the
+        query keeps its original form"""
+        if conv is None or os.environ.get("VERIF_C01_NOPOLY"):
+            return qq
+        try:
+            qq.poly_text, dxy = conv.text(qq.asserts)
+            qq.poly_skels, qq.poly_dxy = conv.last_skeletons, dxy
+            qq.poly_conv = conv
+            qq.poly_term_names = conv.term_names
+            qq.poly_back = lambda m, dxy=dxy: polyq.Converter.model_back(m, dxy)
+        except polyq.NotPoly as e_:
+            qq.meta = dict(qq.meta, not_converted=str(e_))
+        return qq
     exo = E.load(generics={"S": "opaque::Shape"})
     f_sc = E.find_fn(exo, r"^packed::<impl at [^>]*>::score$")
     for g in glist:
@@ -2031,6 +2075,8 @@ def c01(res, tier, seed):
         for sname, skind, sty, sdata in shapes:
             R = unjf(sdata["enclosing_radius"])
             exo.record_intersects = []
+            exo.int_cast_range = (0, Kmax)
+            exo.cast_dropped = []
             tt = t
             st = S.state("packed", g, Agg("struct:OpaqueShape", []), a, q, tt, x, y, th, family=fam)
             # the opaque shape's enclosing radius is the real shape's
@@ -2040,12 +2086,39 @@ def c01(res, tier, seed):
             exo.record_intersects = None
             some = T.bor(*[c for c, vn, f in sc.alts if vn == "Some"])
             fixR = [T.fcmp("feq", exo_R, R)]
+            conv = polyq.Converter(a, q, c_, s_, cth, sth, consts={exo_R.id: R}, drop=[dom_geo[4]])
+            convs.append(conv)
             # label the log entries (order replicated from the loops: in-cell i<j, then i, j, (n,m) lexicographic)
-            by_k = {}
+            # arms of the search: entries are grouped by the path-condition prefix in force at an arm's first test
+            arms_ = []
             for e in log:
-                by_k.setdefault(e["k"], []).append(e)
-            labelled = {}
+                arm = None
+                for ar in arms_:
+                    pf = ar["prefix"]
+                    if len(e["pc"]) >= len(pf) and all(x_ is y_ for x_, y_ in zip(pf, e["pc"])):
+                        arm = ar
+                        break
+                if arm is None:
+                    arm = dict(prefix=list(e["pc"]) if N > 1 else list(e["pc"][:-1]), ents=[], k=e["k"])
+                    arms_.append(arm)
+                arm["ents"].append(e)
+            by_k = {}
+            G_of = {}
             consistent = True
+            for ar in arms_:
+                k_ = ar["k"]
+                if k_ not in by_k:
+                    by_k[k_] = ar["ents"]
+                    G_of[k_] = [ar["prefix"]]
+                else:
+                    # another arm with the same shell count must perform literally the same tests
+                    ref = by_k[k_]
+                    same = len(ref) == len(ar["ents"]) and all(all(x_ is y_ for x_, y_ in zip(e1["p"] + e1["q"], e2["p"] + e2["q"])) and
+                                                               (len(e1["pc"]) - len(G_of[k_][0])) == (len(e2["pc"]) - len(ar["prefix"])) for e1, e2 in zip(ref, ar["ents"]))
+                    if not same:
+                        consistent = False
+                    G_of[k_].append(ar["prefix"])
+            labelled = {}
             for k, ents in by_k.items():
                 lab = [(i_, j_, 0, 0) for i_ in range(N) for j_ in range(i_ + 1, N)]
                 lab += [(i_, j_, n_, m_) for i_ in range(N) for j_ in range(N) for n_ in range(-k, k + 1) for m_ in range(-k, k + 1) if (n_, m_) != (0, 0)]
@@ -2091,19 +2164,15 @@ def c01(res, tier, seed):
                 dx = T.fbin("fadd", T.fbin("fmul", float(n_), A[0]), T.fbin("fmul", float(m_), Bv[0]))
                 dy = T.fbin("fmul", float(m_), Bv[1])
                 return [Pj[0], Pj[1], T.fbin("fadd", Pj[2], dx), Pj[3], Pj[4], T.fbin("fadd", Pj[5], dy)]
-            Wn, Wm = (4, 3) if tier == "quick" else (6, 4)
-            ctx = dict(group=g, shape=sname, skind=skind, sdata=sdata, N=N, fam=fam)
+            Wn, Wm = (4, 4) if tier == "quick" else (6, 6)
+            ctx = dict(group=g, shape=sname, skind=skind, sdata=sdata, N=N, fam=fam, Pcopy=Pcopy)
             # per shell count k: the region condition G_k (path literals before the first test) and one
             # clause per test:  prefilter_e => not intersects_e .  The extraction is validated against the
             # code's own "score is Some" formula below.
             regions = {}
             for k, ents in by_k.items():
-                first = ents[0]
-                # in-cell tests come first and have no prefilter; the region literals are the common prefix
-                G = list(first["pc"]) if N == 1 else list(first["pc"])
-                if N == 1:
-                    # the first test of a single-copy state is a periodic one: its last literal is the prefilter
-                    G = G[:-1]
+                # the region in which this shell count is used: disjunction over the arms that end with it
+                G = list(G_of[k][0]) if len(G_of[k]) == 1 else [T.bor(*[T.band(*pf) if pf else True for pf in G_of[k]])]
                 clauses = {}
                 for lab, e in labelled.items():
                     if lab[0] != k:
@@ -2115,7 +2184,7 @@ def c01(res, tier, seed):
                 # validation: F and G_k imply every clause (with the X's as in F)
                 neg = T.bor(*[T.band(pre, e["x"]) for (pre, e) in clauses.values()])
                 vq = Query("[%s x %s] k=%d: 'score is Some' implies, for each of the %d recorded tests, prefilter => no intersection (extraction check)" % (g, sname, k, len(clauses)),
-                           fixR + list(pc) + G + [some, neg], timeout=60, meta=dict(group=g, shape=sname, k=k), nontrivial=False)
+                           purify(fixR + list(pc) + G + [some, neg]), timeout=60, meta=dict(group=g, shape=sname, k=k, abstraction="compared quantities replaced by fresh reals"), nontrivial=False)
                 all_q.append(vq)
             import math as _m
             # p1/p2 copies of a centrally symmetric polygon are translates of each other (W = +-I maps the vertex set
@@ -2147,11 +2216,12 @@ def c01(res, tier, seed):
                     wj = wraps_in([Pcopy[j_][2], Pcopy[j_][5]])
                     newmap = {}
                     cons = []
+                    wy = wraps_in([Pcopy[i_][5]])
                     for tid, u in wmap.items():
                         if tid in wj or i_ == j_:
                             newmap[tid] = 0.0
                         elif tid in wi:
-                            dv = T.var("delta%d" % tid, "F")
+                            dv = T.var("delta%s%d" % ("y" if tid in wy else "x", tid), "F")
                             newmap[tid] = dv
                             cons += [T.fcmp("flt", -1.0, dv), T.fcmp("flt", dv, 1.0)]
                         else:
@@ -2200,6 +2270,7 @@ def c01(res, tier, seed):
                                     if pre is not True:
                                         qq = Query("[%s x %s] k=%d copies %d,%d image (%d,%d) [tested]: the centre-distance prefilter passes whenever the enclosing discs overlap" % (g, sname, k, i_, j_, n_, m_),
                                                    finish(base + [T.fcmp("flt", d2(e["p"], e["q"]), (2 * R) ** 2), T.bnot(pre)], i_=i_, j_=j_), timeout=30, meta=dict(group=g, shape=sname, k=k, i=i_, j=j_, n=n_, m=m_, kind="prefilter"))
+                                        P(qq, conv)
                                         all_q.append(qq)
                                         ctxs.append((qq, ctx))
                                     # (2) discs: the tested pair's own clause excludes a true overlap (polygons: this step is C12)
@@ -2207,6 +2278,7 @@ def c01(res, tier, seed):
                                         goal = true_overlap(skind, sitems, e["p"], e["q"])
                                         qq = Query("[%s x %s] k=%d copies %d,%d image (%d,%d) [tested]: a negative test excludes an overlap of more than 1e-9" % (g, sname, k, i_, j_, n_, m_),
                                                    finish(base + [hyp_of(pre, e), goal], i_=i_, j_=j_), timeout=30 if tier == "quick" else 240, meta=dict(group=g, shape=sname, k=k, i=i_, j=j_, n=n_, m=m_, kind="tested"))
+                                        P(qq, conv)
                                         all_q.append(qq)
                                         ctxs.append((qq, ctx))
                                     continue
@@ -2221,11 +2293,13 @@ def c01(res, tier, seed):
                                            meta=dict(group=g, shape=sname, k=k, i=i_, j=j_, n=n_, m=m_, hypotheses=len(hyp), kind="untested"))
                                 qq.get_terms = [c_, s_, cth, sth]
                                 qq.rawq = (base + hyp + [goal], finish)
+                                P(qq, conv)
                                 if skind == "line":
-                                    def mk_stage2(i_=i_, j_=j_, n_=n_, m_=m_, k=k, base=base, clauses=clauses, gimg=gimg, finish=finish, translates=translates):
+                                    def mk_stage2(i_=i_, j_=j_, n_=n_, m_=m_, k=k, base=base, clauses=clauses, gimg=gimg, finish=finish, translates=translates, conv=conv):
                                         hyp2 = []
                                         for (li, lj, ln, lm), (pre, e) in clauses.items():
                                             near = ((li, lj) == (i_, j_) and max(abs(ln - n_), abs(lm - m_)) <= 1) or ((li, lj) == (j_, i_) and max(abs(ln + n_), abs(lm + m_)) <= 1)
+                                            near = near or (li == lj and li in (i_, j_) and max(abs(ln), abs(lm)) <= 1)
                                             if near:
                                                 # content of a negative edge test (through C12): the polygons do not overlap, in
                                                 # particular no vertex of one lies inside the other
@@ -2239,7 +2313,7 @@ def c01(res, tier, seed):
                                                    finish(raw2, i_=i_, j_=j_), timeout=90 if tier == "quick" else 600, meta=dict(group=g, shape=sname, k=k, i=i_, j=j_, n=n_, m=m_, kind="untested-exact", hypotheses=len(hyp2)))
                                         q2.get_terms = [c_, s_, cth, sth]
                                         q2.rawq = (raw2, finish)
-                                        return q2
+                                        return P(q2, conv)
                                     qq.stage2 = mk_stage2
                                 all_q.append(qq)
                                 ctxs.append((qq, ctx))
@@ -2259,12 +2333,18 @@ def c01(res, tier, seed):
                                 hyp.append(hyp_of(pre, e))
                         qq = Query("[%s x %s] k=%d copies %d,%d: no image beyond the window |n|<=%d, |m|<=%d can come within 2R of a copy in a scored state (offsets real-valued)" % (g, sname, k, i_, j_, Wn, Wm),
                                    finish(dom_geo + fixR + G + hyp + [far, close], i_=i_, j_=j_), timeout=60 if tier == "quick" else 300, meta=dict(group=g, shape=sname, k=k, i=i_, j=j_, window=(Wn, Wm), kind="far"))
+                        P(qq, conv)
                         all_q.append(qq)
                         ctxs.append((qq, ctx))
     import time as _time
     t_start = _time.time()
     budget = 420 if tier == "quick" else 7200
     deadline = t_start + budget
+    if os.environ.get("VERIF_C01_MATCH"):
+        # debugging aid: restrict to the obligations whose name contains the substring and dump their scripts
+        all_q = [qq for qq in all_q if os.environ["VERIF_C01_MATCH"] in qq.name]
+        for n_, qq in enumerate(all_q):
+            open(os.path.join(E.TARGET, "c01_dump_%d.smt2" % n_), "w").write("; %s\n" % qq.name + qq.script()[0])
     done = run_queries(all_q, deadline=deadline)
     ctx_of = {id(qq): cx for qq, cx in ctxs}
     # queries nlsat could not decide are split over a grid of the cell/offset domain (36 boxes); every
@@ -2285,6 +2365,7 @@ def c01(res, tier, seed):
                 b = Query(qq.name + " [box]", qq.asserts + extra, timeout=20 if tier == "quick" else 120, meta=qq.meta)
                 b.get_terms = getattr(qq, "get_terms", [])
                 b.rawq = qq.rawq
+                P(b, getattr(qq, "poly_conv", None))
                 qq.boxes.append(b)
                 subs.append(b)
         if subs:
@@ -2300,7 +2381,7 @@ def c01(res, tier, seed):
                     qq.status = "unsat"
                     qq.meta = dict(qq.meta, decided_by="%d domain boxes, all unsat" % len(st))
             res.extra[label] = len(todo)
-    split_unknown(done, "split_round1")
+    split_unknown([qq for qq in done if getattr(qq, "stage2", None) is None], "split_round1")
     # polygons: goals the disc abstraction cannot exclude get the exact query
     stage2 = []
     for qq in list(done):
@@ -2308,7 +2389,128 @@ def c01(res, tier, seed):
             q2 = qq.stage2()
             ctx_of[id(q2)] = ctx_of.get(id(qq))
             stage2.append((qq, q2))
+    def theta_bb(goals, deadline):
+        """Orientation branch and bound.  Each goal's atoms are affine in (cos, sin) of the shape orientation.  The
+        circle of orientations is covered by intervals; on an interval every atom is weakened to 'holds for some
+        orientation of the interval' (polyq.relax_theta), which removes the orientation from the query.  unsat on
+        every interval of a cover = the goal is unsat for every orientation.  An interval that is not unsat is
+        halved; for a sat interval the exact query with the orientation pinned to its midpoint is asked too, and a
+        model of that one is a counterexample candidate (replayed like any other)."""
+        N0 = 64
+        maxdepth = 3 if tier == "quick" else 7
+        tmo = 30 if tier == "quick" else 180
+        front = {}
+        info = {}
+        for gq in goals:
+            front[id(gq)] = [(k_ * 2 * math.pi / N0, 2 * math.pi / N0, 0) for k_ in range(N0)]
+            info[id(gq)] = dict(goal=gq, closed=0, open=[], sat=None, queries=0, finest=2 * math.pi / N0, secs=0.0)
+        cache = {}
+        rounds = 0
+
+        def pinned(gq, thm):
+            cm_, sm_ = math.cos(thm), math.sin(thm)
+            pq_ = Query(gq.name + " [orientation = %.5f]" % thm, [], timeout=tmo, meta=gq.meta)
+            pq_.poly_text = polyq.script_of(polyq.pin_theta(gq.poly_skels, cm_, sm_))
+            pq_.poly_back = lambda m_, dxy=gq.poly_dxy, cm_=cm_, sm_=sm_: dict(polyq.Converter.model_back(m_, dxy), cth=cm_, sth=sm_)
+            return pq_
+        # phase A, counterexample search: the exact query at the midpoint of every base interval (cheap: no
+        # orientation variable left).  A model ends the goal (it is replayed); unsat proves nothing yet.
+        pcache = {}
+        pa = []
+        for gid, inf in info.items():
+            for (th0, w, dep) in front[gid]:
+                pq_ = pinned(inf["goal"], th0 + w / 2)
+                if pq_.poly_text in pcache:
+                    continue
+                pcache[pq_.poly_text] = pq_
+                pa.append((gid, pq_))
+        _rnd2 = __import__("random").Random(seed)
+        _rnd2.shuffle(pa)
+        run_queries([pq_ for _, pq_ in pa], deadline=_time.time() + (deadline - _time.time()) * 0.5)
+        for gid, pq_ in pa:
+            info[gid]["secs"] += pq_.secs
+            if pq_.status == "sat" and info[gid]["sat"] is None:
+                info[gid]["sat"] = pq_
+                front[gid] = []
+        res.extra["orientation_pinned_queries"] = len(pa)
+        while any(front.values()) and _time.time() < deadline:
+            rounds += 1
+            batch = []
+            for gid, ivs in front.items():
+                gq = info[gid]["goal"]
+                for (th0, w, dep) in ivs:
+                    sks = polyq.relax_theta(gq.poly_skels, math.cos(th0), math.sin(th0), w * (1 + 1e-6))
+                    text = polyq.script_of(sks)
+                    rq = cache.get(text)
+                    if rq is None:
+                        rq = Query(gq.name + " [orientation in %.4f+%.4f]" % (th0, w), [], timeout=tmo, meta=gq.meta)
+                        rq.poly_text = text
+                        cache[text] = rq
+                        batch.append(rq)
+                    info[gid].setdefault("pending", []).append((th0, w, dep, rq))
+            run_queries(batch, deadline=deadline)
+            pins = []
+            for gid in list(front):
+                inf = info[gid]
+                nxt = []
+                for (th0, w, dep, rq) in inf.pop("pending", []):
+                    inf["queries"] += 1
+                    inf["secs"] += rq.secs
+                    if rq.status == "unsat":
+                        inf["closed"] += 1
+                        inf["finest"] = min(inf["finest"], w)
+                        continue
+                    if rq.status == "sat" and inf["sat"] is None:
+                        if dep > 0:
+                            pins.append((gid, pinned(inf["goal"], th0 + w / 2)))
+                    if dep < maxdepth:
+                        nxt += [(th0, w / 2, dep + 1), (th0 + w / 2, w / 2, dep + 1)]
+                    else:
+                        inf["open"].append((th0, w, rq.status))
+                front[gid] = nxt
+            if pins:
+                run_queries([pq_ for _, pq_ in pins], deadline=deadline)
+                for gid, pq_ in pins:
+                    info[gid]["secs"] += pq_.secs
+                    if pq_.status == "sat" and info[gid]["sat"] is None:
+                        info[gid]["sat"] = pq_
+                        front[gid] = []
+        for gid, inf in info.items():
+            gq = inf["goal"]
+            gq.secs += inf["secs"]
+            left = len(front.get(gid, [])) + len(inf["open"])
+            gq.meta = dict(gq.meta, orientation_intervals=inf["queries"], intervals_unsat=inf["closed"], intervals_open=left, finest_interval=round(inf["finest"], 5))
+            if inf["sat"] is not None:
+                gq.status, gq.model = "sat", inf["sat"].model
+                gq.term_names = dict(gq.poly_conv.term_names)
+            elif left == 0:
+                gq.status = "unsat"
+                gq.meta = dict(gq.meta, decided_by="orientation branch and bound: %d intervals covering the circle, all unsat" % inf["closed"])
+            else:
+                gq.status, gq.raw = "unknown", "orientation branch and bound: %d of %d intervals not unsat at width %.4f (%s)" % (left, inf["queries"], inf["finest"], "budget" if front.get(gid) else "depth limit")
+            gq.bb_done = True
+        res.extra["orientation_bb_goals"] = len(goals)
+        res.extra["orientation_bb_queries"] = len(cache)
+        res.extra["orientation_bb_rounds"] = rounds
+
     if stage2:
+        bb = []
+        for q1, q2 in stage2:
+            try:
+                if getattr(q2, "poly_skels", None) is not None:
+                    polyq.relax_theta(q2.poly_skels, 1.0, 0.0, 0.1)
+                    bb.append(q2)
+            except polyq.NotPoly:
+                pass
+        if bb and not os.environ.get("VERIF_C01_NOBB"):
+            theta_bb(bb, _time.time() + (360 if tier == "quick" else 3600))
+            repl0 = {id(q1): q2 for q1, q2 in stage2 if getattr(q2, "bb_done", False)}
+            done = [repl0.get(id(qq), qq) for qq in done]
+            stage2 = [(q1, q2) for q1, q2 in stage2 if not getattr(q2, "bb_done", False)]
+    if stage2:
+        if os.environ.get("VERIF_C01_MATCH"):
+            for n_, (_, q2) in enumerate(stage2):
+                open(os.path.join(E.TARGET, "c01_dump_s2_%d.smt2" % n_), "w").write("; %s\n" % q2.name + q2.script()[0])
         run_queries([q2 for _, q2 in stage2], deadline=deadline)
         split_unknown([q2 for _, q2 in stage2], "split_round2")
         repl0 = {id(q1): q2 for q1, q2 in stage2}
@@ -2321,7 +2523,7 @@ def c01(res, tier, seed):
     import math as _m2
     offs = [0.0, 0.1, 0.19, 0.21, 0.35, 0.45, 0.49, 0.51, 0.8, 1.04]
     ratios = [1.0, 0.8, 0.6, 0.53, 0.51, 0.49, 0.4, 0.34, 0.32, 0.2, 0.1]
-    undec = [qq for qq in done if qq.status not in ("sat", "unsat") and getattr(qq, "rawq", None) is not None][:40]
+    undec = [qq for qq in done if qq.status not in ("sat", "unsat") and getattr(qq, "rawq", None) is not None and not getattr(qq, "bb_done", False)][:40]
     gridq = []
     thetas = [k_ * _m2.pi / 8 + 0.05 for k_ in range(4)]   # squares/triangles: orientation modulo the shape's symmetry
     for qq in undec:
@@ -2340,6 +2542,7 @@ def c01(res, tier, seed):
                     gq = Query(qq.name + " [grid angle=pi/2-%g ratio=%g%s]" % (off, rv_, "" if thv is None else " theta=%.3f" % thv), fin(raw + pin, i_=qq.meta.get("i"), j_=qq.meta.get("j")), timeout=10, meta=qq.meta)
                     gq.get_terms = [c_, s_, cth, sth]
                     gq.rawq = (raw + pin, fin)
+                    P(gq, getattr(qq, "poly_conv", None))
                     qq.grid.append(gq)
                     gridq.append(gq)
     if gridq:
@@ -2376,11 +2579,51 @@ def c01(res, tier, seed):
         sv = m.get(names.get(s_.id)) if names.get(s_.id) else None
         if cv is not None and sv is not None:
             m["t"] = math.atan2(sv, cv)
+        dks = [k_ for k_ in m if k_.startswith("deltax") or k_.startswith("deltay")]
+        if m.get("x") is None and dks and all(m[k_] is not None for k_ in dks) and qq.meta.get("i") is not None:
+            # relative offsets -> a site: the wrapped fractional coordinates are affine in the site (x, y); ask for
+            # a site whose copies i and j differ by the model's offset (linear arithmetic, decided at once)
+            Pc = cx["Pcopy"]
+            i_, j_ = qq.meta["i"], qq.meta["j"]
+            fi, ci = unwrap_terms([Pc[i_][2], Pc[i_][5]], link=True)
+            fj, cj = unwrap_terms([Pc[j_][2], Pc[j_][5]], link=True)
+            yi, _ = unwrap_terms([Pc[i_][5]], link=False)
+            yj, _ = unwrap_terms([Pc[j_][5]], link=False)
+            cons = list(ci) + list(cj) + [T.fcmp("fle", -0.5, x), T.fcmp("fle", x, 0.5), T.fcmp("fle", -0.5, y), T.fcmp("fle", y, 0.5)]
+            ok = True
+            for k_ in dks:
+                tid = int(k_[6:])
+                isy = k_.startswith("deltay")
+                if tid not in fi:
+                    ok = False
+                    break
+                others = [u_ for t_, u_ in fj.items() if (t_ in yj) == isy]
+                if len(others) != 1:
+                    ok = False
+                    break
+                dd = T.fbin("fsub", fi[tid], others[0])
+                cons += [T.fcmp("fle", m[k_] - 1e-10, dd), T.fcmp("fle", dd, m[k_] + 1e-10)]
+            if ok:
+                memo_ = {}
+                fm = dict(fi)
+                fm.update(fj)
+                qs_ = Query("site", [T.subst(z_, {}, memo_) for z_ in cons], timeout=30)
+                run_queries([qs_])
+                if qs_.status == "sat" and qs_.model.get("x") is not None:
+                    m["x"], m["y"] = qs_.model["x"], qs_.model["y"]
+                    if m.get("cth") is not None and m.get("sth") is not None:
+                        m["th"] = math.atan2(m["sth"], m["cth"])
+                    elif names.get(cth.id) and m.get(names[cth.id]) is not None and m.get(names.get(sth.id)) is not None:
+                        m["th"] = math.atan2(m[names[sth.id]], m[names[cth.id]])
         if m.get("x") is None and getattr(qq, "rawq", None) is not None and m.get("a") is not None and cv is not None:
             # the query used relative offsets: solve the exact (site-linked) version with the cell pinned
             raw, fin = qq.rawq
             pin = [T.fcmp("fle", m["a"] - 1e-9, a), T.fcmp("fle", a, m["a"] + 1e-9), T.fcmp("fle", m["q"] - 1e-9, q), T.fcmp("fle", q, m["q"] + 1e-9),
                    T.fcmp("fle", cv - 1e-9, c_), T.fcmp("fle", c_, cv + 1e-9)]
+            for tz in (cth, sth):
+                vz = m.get(names.get(tz.id)) if names.get(tz.id) else None
+                if vz is not None:
+                    pin += [T.fcmp("fle", vz - 1e-9, tz), T.fcmp("fle", tz, vz + 1e-9)]
             box = [T.fcmp("fle", -0.5, x), T.fcmp("fle", x, 0.5), T.fcmp("fle", -0.5, y), T.fcmp("fle", y, 0.5)]
             q2 = Query("exact", fin(raw + pin + box, link=True), timeout=120)
             q2.get_terms = [c_, s_, cth, sth]
@@ -2411,6 +2654,22 @@ def c01(res, tier, seed):
                     dict(kind="oracle-overlap", state=stj, shape_kind=cx["skind"], result=o),
                     dict(clause="missed-overlap", shape=cx["shape"], beyond_searched_shells=max(abs(w.get("n", 0)), abs(w.get("m", 0))) > 3 or True))
         return ("spurious", "native score/oracle agree (no undetected overlap) for the model's cell and site")
+    # the atom translations the change of variables relied on, each discharged as an equivalence over the old variables
+    keys = set()
+    for cv_ in convs:
+        keys |= cv_.used
+    if keys and not os.environ.get("VERIF_C01_NOPOLY"):
+        lq = []
+        for key in sorted(keys, key=str):
+            lqq = Query("change of variables: %s %s %s (side %s) is equivalent to its translation over (A,Bx,By)" % (key[0], key[1], float(key[3]), key[2]), [], timeout=60, nontrivial=False)
+            lqq.poly_text = polyq.lemma_text(*key)
+            lq.append(lqq)
+        run_queries(lq)
+        bad = [x for x in lq if x.status != "unsat"]
+        res.ob("change of variables (a,q,cos,sin,offset) -> (A,Bx,By,u,v): %d atom translations proved equivalent" % (len(lq) - len(bad)), "z3/R", "discharged" if not bad else "undischarged",
+               "unsat" if not bad else "not proven: " + "; ".join("%s:%s" % (x.name[:60], x.status) for x in bad[:5]), sum(x.secs for x in lq), dict(lemmas=len(lq), failed=len(bad)), False)
+        res.extra["cov_lemmas"] = len(lq)
+        res.extra["cov_converted_queries"] = sum(1 for qq in done if getattr(qq, "poly_text", None) is not None)
     agg = {}
     for qq in done:
         cx = ctx_of.get(id(qq))
@@ -2426,7 +2685,8 @@ def c01(res, tier, seed):
     res.extra["image_obligations_unsat"] = sum(len(v) for v in agg.values())
     res.functions = used_fns(exo)
     res.stubs = summaries_used()
-    res.bounds = ["groups %s x shapes %s; every cell in the optimiser's bounds (length [0.01,50], ratio [0.1,1], angle [pi/6,pi/2]) and site in [-1/2,1/2]^2 with any orientation; image window |n|<=5,|m|<=3 plus a real-offset obligation for everything beyond" % (glist, [s[0] for s in shapes])]
+    res.bounds = ["groups %s x shapes %s; every cell in the optimiser's bounds (length [0.01,50], ratio [0.1,1], angle [pi/6,pi/2]) and site in [-1/2,1/2]^2 with any orientation; image window |n|,|m|<=%d plus a real-offset obligation for everything beyond" % (glist, [s[0] for s in shapes], 4 if tier == "quick" else 6),
+                  "the size-based shell count ceil(2R/spacing) is followed for values 0..%d (cells whose lattice-line spacing is at least 2R/%d); flatter cells are outside the claim" % (Kmax, Kmax)]
     res.assumptions = ["R-mode; wrap replaced by u = P - n, n in -2..2, -1/2 <= u < 1/2 (C15)", "hypotheses: the code's own overlap-search formula with the tests adjacent to the goal image (and the nearest self-images) instantiated by the real intersects code; all other tests left free (sound for unsat)",
                        "true overlap: discs by centre distance, convex polygons by the separating-axis condition with margin 1e-9", "the angle's cosine is linked to the angle at the guards' thresholds by monotonicity of cos on [pi/6, pi/2]"]
 
